@@ -4,7 +4,22 @@ NOTES = "Solver-based checking of the real code: see DESIGN.md. Every verdict is
 
 _NOT_BUILT = "check not built yet in this session (see DESIGN.md section 4 for the plan); listed here until its harnesses run clean on the unchanged tree"
 
+_T = "symbolic execution of go/ssa + SMT (z3 bit-vectors/FP), decision-prefix path exploration, counterexample replay on the native build"
+_N = "trusts go/ssa, the engine's instruction semantics and intrinsic models (validated by native replay of sampled passing paths and of every counterexample), the solver; bounds listed per harness in the evidence"
+
 CLAIMED = {
+    "C03": {
+        "text": "bounded: real Executor.CreateOperationContext/parseQuery/DispatchOperation with the real gqlparser interpreted, over a 12-request corpus x symbolic mutator verdicts x cache states x suggestion setting; hook order over all lists of <=3 extensions from 5 hook subsets; the solver decides every branch and assertion inside these bounds",
+        "design_ref": "DESIGN.md section 4, C03", "note": _N, "technique": _T,
+    },
+    "C08": {
+        "text": "bounded/full width: writeQuotedString, MarshalString, MarshalID on every byte string up to length 3 (quick) / 4 (thorough) against an independent RFC 8259 + RFC 3629 oracle",
+        "design_ref": "DESIGN.md section 4, C08", "note": _N, "technique": _T,
+    },
+    "C10": {
+        "text": "bounded: AddUpload over variables trees of depth <=2 x corpus paths; bytesReader from an arbitrary valid state with full-width offsets",
+        "design_ref": "DESIGN.md section 4, C10", "note": _N, "technique": _T,
+    },
     "C14": {
         "text": "safeAdd is decided for all 2^128 operand pairs (bit-vector SMT, no bound) against an independent saturating reference; complexity walk and limit gate bounded as listed in the evidence",
         "design_ref": "DESIGN.md section 4, C14",
